@@ -4403,7 +4403,11 @@ impl<'a, E: quiver_core::effects::Effect> Compiler<'a, E> {
         let mut fields = info.fields;
         for (idx, ty) in field_narrowings {
             if let Some(field) = fields.get_mut(idx) {
-                field.1 = ty;
+                // Both facts hold for the field: what earlier branches excluded (`ty`) and what
+                // the base already says — the base carries this branch's own positive narrowing
+                // (`=[('int)v]`, `=[_, 'int]`), which the recorded complement must not widen again.
+                let both = narrowing::intersect_types(field.1, ty, self.program);
+                field.1 = if self.is_never(both) { ty } else { both };
             }
         }
         let new_tuple_id = self.program.register_tuple(info.name, fields);
